@@ -184,11 +184,17 @@ pub fn dump<'tcx>(tcx: TyCtxt<'tcx>, out: &mut String) {
                 };
                 let mut its = Vec::new();
                 for it in tcx.associated_items(did).in_definition_order() {
+                    let aty = if it.is_type() {
+                        J::s(tcx.type_of(it.def_id).instantiate_identity().skip_normalization().to_string())
+                    } else {
+                        J::Null
+                    };
                     its.push(obj! {
                         "name": J::s(it.name().to_string()),
                         "kind": J::s(format!("{:?}", it.kind).split(|c: char| !c.is_alphanumeric()).next().unwrap_or("").to_string()),
                         "path": J::s(path(tcx, it.def_id)),
                         "trait_item": J::opt_s(it.trait_item_def_id().map(|d| path(tcx, d))),
+                        "ty": aty,
                     });
                 }
                 let (at, _) = attrs(tcx, did);
